@@ -58,6 +58,7 @@ type HarnessCfg struct {
 	OneShot     bool // assertion queries go to a fresh non-incremental solver process
 	FPUF        bool // float arithmetic as uninterpreted functions (sound for proving equalities such as symmetry)
 	NoMerge     bool // disable ite-merging of pure diamonds (debugging / cross-validation)
+	Entry       func(in *Interp, p *Path) // engine-level harness body (instead of a Go harness function)
 	PanicIsViol bool // a Go panic in the code under test counts as violation label "panic"
 }
 
@@ -542,7 +543,12 @@ func runHarness(in *Interp, cfg *HarnessCfg, workers int) *HarnessResult {
 	t0 := time.Now()
 	gFPUF = cfg.FPUF
 	defer func() { gFPUF = false }()
-	fn := in.lookupFunc(cfg.Pkg, cfg.Name)
+	var fn interface{}
+	if cfg.Entry == nil {
+		fn = in.lookupFunc(cfg.Pkg, cfg.Name)
+	} else {
+		fn = cfg.Entry
+	}
 	if fn == nil {
 		res.incon(fmt.Sprintf("harness %s.%s not found (does it still compile against the tree?)", cfg.Pkg, cfg.Name))
 		return res
